@@ -112,8 +112,9 @@ def run(case):
     if base_cls in sweep.ACCEPTS_STARTS and inner:
         cfgs.append(cfg("add_start", {"additional_starts": [inner[0]]}, starts=[inner[0]]))
         cfgs.append(cfg("add_end", {"additional_ends": [inner[-1]]}, ends=[inner[-1]]))
-        if case["level"] >= 2:
-            cfgs.append(cfg("node+add_start", {okey: "node", "additional_starts": [inner[0]]}, inst_over=nt_inst, starts=[inner[0]], origin="node"))
+        for v in inner[:2]:
+            cfgs.append(cfg("node+add_start", {okey: "node", "additional_starts": [v]}, inst_over=nt_inst, starts=[v], origin="node"))
+            cfgs.append(cfg("node+add_end", {okey: "node", "additional_ends": [v]}, inst_over=nt_inst, ends=[v], origin="node"))
     con = sweep.a_constraint(inst)
     if con:
         cfgs.append(cfg("constraint", {ckey: [con]}))
